@@ -43,7 +43,7 @@ PROPS = {
         suite="erc20",
         modules=["CantoVerif.Props.C14"],
         theorems=[
-            "CV.Erc20.msg_gate", "CV.Erc20.conv_ok_gate", "CV.Erc20.receiver_blocked_rejected",
+            "CV.Erc20.msg_gate", "CV.Erc20.conv_ok_gate", "CV.Erc20.receiver_blocked_rejected", "CV.Erc20.module_receiver_rejected", "CV.Erc20.switches_stored",
             "CV.Erc20.third_party_send_disabled_rejected", "CV.Erc20.self_conversion_ignores_send_switch",
             "CV.Erc20.hook_gate_global", "CV.Erc20.hook_gate_pair", "CV.Erc20.hook_disabled_pair_frame",
             "CV.Erc20.hookTarget_pair_disabled", "CV.Erc20.hookTarget_not_to_module", "CV.Erc20.ordinary_transfers_unaffected",
